@@ -263,6 +263,15 @@ class Gen:
                 continue
             item[m] = self.operation(names, f"{m}{seg.capitalize()}{'ById' if with_id else ''}{k}", [seg[:-1] + "_id"] if with_id else [])
             k += 1
+        # a path-template variable that is NOT declared under `parameters` (the generator adds the argument itself)
+        # next to an optional parameter: the added required argument must not land behind defaulted ones
+        if self.extra is not None and self.extra.random() < 0.4:
+            cands = [(pth, op) for pth, item in paths.items() if "{" in pth for op in item.values()]
+            if cands:
+                pth, op = self.extra.choice(cands)
+                op["parameters"] = [q for q in op["parameters"] if q.get("in") != "path"]
+                if not any(not q.get("required") for q in op["parameters"]):
+                    op["parameters"].append({"name": "page_size", "in": "query", "required": False, "schema": {"type": "integer"}})
         # one tag spelled in two ways that normalise to the same key but give different module / argument names
         # (datasources vs DataSources), used by unequal numbers of operations: every emitter must pick the same spelling
         all_ops = [op for item in paths.values() for op in item.values()]
@@ -545,11 +554,9 @@ def guard_repair_layout(doc: dict, layout: tuple) -> bool:   # F01f: add_import'
 # conjunct indices (Coq bit = index+1): 0 c_parses, 1 c_closed, 2 c_acyclic, 3 c_no_str_or, 4 c_no_shadow,
 #                                       5 c_no_ancestor_names, 6 c_paths, 7 c_static
 # fixed in /repo (their corpus witnesses stay and must now import cleanly): F01e 0981866, F20a 4164990;
-# fix wave: F01b 270aa99, F01c a43f53c, F01g 7041aaa, F01f f12b1ce, F06d 133c12b
+# fix wave: F01b 270aa99, F01c a43f53c, F01g 7041aaa, F01f f12b1ce, F06d 133c12b, F13b aad1e7d, F04c bd888c2
 FINDINGS: dict[str, tuple] = {
     "F01a": (lambda c, m, f: c == "ImportError" and "partially initialized module" in m and "/models/" in m, 2, guard_ref_cycle),
-    "F13b": (lambda c, m, f: c == "SyntaxError" and "duplicate argument" in m and f.endswith("mocks/mock_client.py"), 0, guard_case_variant_tags),
-    "F04c": (lambda c, m, f: c == "SyntaxError" and "duplicate argument" in m and "/endpoints/" in f, 0, guard_duplicate_param),
     "F01i": (lambda c, m, f: c == "ImportError" and "partially initialized module" in m and "/models/" in m, 2, guard_inline_name_collision),
     "F01j": (lambda c, m, f: c == "ModuleNotFoundError" and re.search(r"No module named '[\w.]*\.models\.\w+'", m) is not None and "/models/" in f, 1, guard_discriminator_ref_property),
     "F20e": (lambda c, m, f: c == "ValueError" and "_sunder_ names" in m, 7, guard_sunder_enum_value),
@@ -735,6 +742,10 @@ def extract_module(src: str, cur: list[str], is_pkg: bool) -> list:
                     # relative import that climbs above the top-level package: CPython raises ImportError; in the
                     # model it is an import of a module below the own top-level name that does not exist
                     target = [cur[0], "<beyond-top-level>"]
+                if target and target[0] == "pyopenapi_gen":
+                    # the generator is not installed where a client runs (the import driver blocks it): in the model,
+                    # a module below the own top-level name that does not exist (ModuleNotFoundError)
+                    target = [cur[0], "<pyopenapi_gen>"] + target[1:]
                 if any(a.name == "*" for a in s.names):
                     out.append(("star", target))
                 else:
